@@ -120,12 +120,14 @@ def gen_pipe(rng, tier):
 # running
 # ------------------------------------------------------------------------------------------------
 
-def run_child(case):
+def run_child(case, hang=None):
     fd, out = tempfile.mkstemp(prefix='verif-c18-rep-', suffix='.json')
     os.close(fd)
     os.unlink(out)
     env = dict(os.environ)
     env['PYTHONPATH'] = str(HERE) + os.pathsep + env.get('PYTHONPATH', '')
+    if hang:
+        env['VERIF_C18_HANG'] = str(hang)
     p = subprocess.Popen([sys.executable, str(HERE / 'sock_child.py'), str(REPO / 'src'), out],
                          stdin=subprocess.PIPE, stdout=subprocess.DEVNULL, stderr=subprocess.PIPE,
                          start_new_session=True, env=env)
@@ -157,11 +159,26 @@ def run_child(case):
     return rep
 
 
-def run_case(case):
-    rep = run_child(case)
+# findings that consist of a wait running into its bound and nothing else: confirmed by one re-run with a
+# three times larger bound before they are reported (a loaded machine must not produce a false alarm; a
+# genuine hang is deterministic or leaves other evidence - unmatched id, dead task - which is never retried)
+SOFT = {'no-response', 'stream-incomplete', 'pipe-missing', 'pipe-error', 'leftover', 'client-error'}
+
+
+def _once(case, hang=None):
+    rep = run_child(case, hang)
     if case['kind'] == 'pipe':
         return eval_pipe(case, rep)
     return eval_sock(case, rep)
+
+
+def run_case(case):
+    res = _once(case)
+    if res['monitors'] and all(m['rule'] in SOFT for m in res['monitors']):
+        first = [m['rule'] for m in res['monitors']]
+        res = _once(case, hang=60)
+        res['retried_after'] = first
+    return res
 
 
 # ------------------------------------------------------------------------------------------------
